@@ -301,6 +301,102 @@ fn stored_eq_source_corner(rep: &Report, seed: u64, tier: Tier) {
     }
 }
 
+/// Chunks larger than what one write / read call of the output file moves (tokio's file
+/// buffer is 2 MiB): fixed sizes of 2-4 MiB, rolling configurations with min >= 3 MiB, and
+/// a multi-MiB constant run under default-like parameters (no boundary until max). Cloned
+/// to a new file, over HTTP, onto an existing larger file, and in place over an older
+/// version in which those chunks sit elsewhere.
+fn huge_chunk_case(rep: &Report, idx: usize, seed: u64) -> Option<String> {
+    let mut rng = Rng::new(seed).fork(0x01c0 + idx as u64);
+    let dir = scn::case_dir("C01", 900_000 + idx);
+    const MIB: usize = 1 << 20;
+    let res = (|| -> Result<(), String> {
+        let (cfg, source, what): (r1::Cfg, Vec<u8>, &str) = match idx % 3 {
+            0 => {
+                let n = 2 * MIB + rng.urange(1, 2 * MIB);
+                let l = 2 * n + rng.urange(1, n);
+                (r1::Cfg::fixed(n), rng.bytes(l), "fixed>2MiB")
+            }
+            1 => {
+                // default-like rolling parameters; a constant non-zero run longer than 2 MiB
+                let cfg = r1::Cfg { algo: if rng.chance(1, 2) { r1::Algo::RollSum } else { r1::Algo::BuzHash }, window: if rng.chance(1, 2) { 64 } else { 16 }, min: 16 * 1024, max: 16 * MIB, bits: 15 };
+                let l0 = rng.urange(100_000, 400_000);
+                let mut v = rng.bytes(l0);
+                let b = 1 + rng.below(255) as u8;
+                let run = 2 * MIB + rng.urange(MIB / 2, 3 * MIB);
+                v.extend(std::iter::repeat(b).take(run));
+                let l1 = rng.urange(100_000, 400_000);
+                v.extend(rng.bytes(l1));
+                (cfg, v, "constant-run>2MiB")
+            }
+            _ => {
+                let cfg = r1::Cfg { algo: if rng.chance(1, 2) { r1::Algo::RollSum } else { r1::Algo::BuzHash }, window: 32, min: 3 * MIB, max: 6 * MIB, bits: 21 };
+                let l = 9 * MIB + rng.urange(0, MIB);
+                (cfg, rng.bytes(l), "min>=3MiB")
+            }
+        };
+        let comp = *rng.pick(&[crate::gen::Comp::None, crate::gen::Comp::Brotli(1), crate::gen::Comp::Zstd(1)]);
+        let spec = scn::CompressSpec::new(cfg, comp, 64);
+        let arch = match scn::make_archive(&dir, "a", &source, &spec) {
+            Ok(a) => a,
+            Err(e) => return Err(format!("compress of a valid source failed: {}", e.chars().take(200).collect::<String>())),
+        };
+        rep.eval();
+        let biggest = arch.model.src_chunks.iter().map(|c| c.len).max().unwrap_or(0);
+        if biggest <= 2 * MIB {
+            rep.count("huge.no_chunk_over_2MiB", 1);
+            return Ok(());
+        }
+        let apath = dir.join("a.cba");
+        let out = dir.join("o.bin");
+        let mode = (idx / 3) % 4;
+        let server = if mode == 1 { Some(crate::httpd::Server::start(Arc::new(arch.bytes.clone()), crate::httpd::well_behaved())) } else { None };
+        let mut cs = CloneSpec { archive: server.as_ref().map(|x| x.url()).unwrap_or_else(|| proc::p(&apath)), output: out.clone(), ..Default::default() };
+        let mode_name = match mode {
+            0 => "new file",
+            1 => "http",
+            2 => {
+                std::fs::write(&out, rng.bytes(source.len() + 3 * MIB)).map_err(|e| e.to_string())?;
+                cs.force = true;
+                "--force-create over a larger file"
+            }
+            _ => {
+                // older version: the source's chunks rotated by one (every big chunk must move)
+                let chunks = r1::chunk(&cfg, &source);
+                let mut prior = Vec::with_capacity(source.len());
+                if chunks.len() > 1 {
+                    for c in chunks[1..].iter().chain(chunks[..1].iter()) {
+                        prior.extend_from_slice(&source[c.0..c.0 + c.1]);
+                    }
+                } else {
+                    prior = source.iter().rev().copied().collect();
+                }
+                std::fs::write(&out, prior).map_err(|e| e.to_string())?;
+                cs.seed_output = true;
+                "--seed-output over rotated chunks"
+            }
+        };
+        cs.buffered = *rng.pick(&[None, Some(1), Some(4)]);
+        let o = proc::run(&Run::new(&dir, "clone", scn::clone_args(&cs)));
+        drop(server);
+        rep.eval();
+        if o.exit == proc::Exit::Timeout {
+            rep.inconclusive("watchdog");
+            return Ok(());
+        }
+        if !o.exit.ok() {
+            return Err(format!("{} / {}: clone of a valid archive failed: {} {}", what, mode_name, o.exit.describe(), o.tail()));
+        }
+        judge_output(std::fs::read(&out).ok(), &source, &format!("{} / {}", what, mode_name))?;
+        rep.count("huge.round_trips_with_chunk_over_2MiB", 1);
+        rep.seen("huge.kinds", format!("{} / {}", what, mode_name));
+        rep.nontrivial(format!("huge:{}:{}:{}:{}", what, mode_name, biggest, idx));
+        Ok(())
+    })();
+    scn::cleanup(&dir, res.is_err());
+    res.err()
+}
+
 pub fn run(tier: Tier, seed: u64) -> i32 {
     let rep = Report::new("C01", "exploration", tier, seed);
     let n = tier.pick(600, 7000);
@@ -354,11 +450,27 @@ pub fn run(tier: Tier, seed: u64) -> i32 {
         }
     }
     stored_eq_source_corner(&rep, seed, tier);
+    let nh = tier.pick(12, 96);
+    // few at a time: each case holds tens of MiB
+    let res = par_map(nh, 6, |i| (i, huge_chunk_case(&rep, i, seed)));
+    for (i, r) in res {
+        if let Some(why) = r {
+            let class: String = why.split(':').next().unwrap_or("").chars().take(60).collect();
+            rep.violation(
+                &format!("c01/huge-chunk/{}", class.trim()),
+                json!({"why": why, "work_dir": format!("/verif/.work/C01/c{}", 900_000 + i)}),
+                json!({"engine": "huge", "idx": i, "seed": seed}),
+            );
+        }
+    }
+    if rep.counter("huge.round_trips_with_chunk_over_2MiB") == 0 {
+        rep.broken("no round trip with a chunk over 2 MiB completed".into());
+    }
     if rep.counter("roundtrips.cli-local") == 0 || rep.counter("roundtrips.cli-http") == 0 {
         rep.broken("no CLI round trip completed".into());
     }
     rep.finish(
-        "each case = (source class, length class incl. empty/1 byte/<window/<min/min+-1/max+-1/k*max/1-5 MiB, chunker config, compression, hash length, buffered-chunks) through writer in {CLI file, CLI stdin pipe, library} under seeded delay injection, then cloned by the real CLI (local file or HTTP from the scripted server) and by the library (fragmenting local reader or HTTP); verdict = exit statuses, output bytes == source, archive size/checksum fields (R2); non-trivial = distinct (source class, length class, writer, algorithm, codec, hash length, readers) with >= 2 chunks or a listed corner source",
+        "chunks over 2 MiB (fixed 2-4 MiB, min >= 3 MiB, constant runs under default-like parameters) cloned to a new file, over HTTP, over a larger existing file and in place over rotated chunks; each case = (source class, length class incl. empty/1 byte/<window/<min/min+-1/max+-1/k*max/1-5 MiB, chunker config, compression, hash length, buffered-chunks) through writer in {CLI file, CLI stdin pipe, library} under seeded delay injection, then cloned by the real CLI (local file or HTTP from the scripted server) and by the library (fragmenting local reader or HTTP); verdict = exit statuses, output bytes == source, archive size/checksum fields (R2); non-trivial = distinct (source class, length class, writer, algorithm, codec, hash length, readers) with >= 2 chunks or a listed corner source",
         &[
             "sources with a truncated-hash collision between distinct chunks are dropped (counted inconclusive)",
             "schedules are sampled by delay injection, thread-count and buffering variation, not enumerated",
@@ -370,6 +482,20 @@ pub fn run(tier: Tier, seed: u64) -> i32 {
 
 pub fn replay(v: &Value) -> i32 {
     let r = &v["replay"];
+    if r["engine"] == "huge" {
+        let rep = Report::new("C01", "exploration", Tier::Quick, r["seed"].as_u64().unwrap_or(1));
+        return match huge_chunk_case(&rep, r["idx"].as_u64().unwrap_or(0) as usize, r["seed"].as_u64().unwrap_or(1)) {
+            Some(why) => {
+                println!("replay: VIOLATED: {}", why);
+                println!("VIOLATION property=C01 replay=(replayed)");
+                1
+            }
+            None => {
+                println!("replay: property held on this case");
+                0
+            }
+        };
+    }
     if r["engine"] == "corner" {
         let rep = Report::new("C01", "exploration", Tier::Thorough, r["seed"].as_u64().unwrap_or(1));
         stored_eq_source_corner(&rep, r["seed"].as_u64().unwrap_or(1), Tier::Thorough);
